@@ -460,10 +460,9 @@ func (p *Prog) modSetOf(fn *ssa.Function) *ModSet {
 	}
 	for _, b := range fn.Blocks {
 		for _, in := range b.Instrs {
+			// no early exit when everything is modified: the components the function stores to itself are still
+			// needed (stable-struct fields survive an opaque call only if the callee does not write them)
 			p.instrMods(in, m)
-			if m.All {
-				return m
-			}
 		}
 	}
 	for _, an := range fn.AnonFuncs {
